@@ -427,7 +427,7 @@ def checkContinuous : List VH → M (Option Nat)
 /-- the remembered hash at a block number: the stored tip, else a stored last-N header -/
 def remembered (s : St) (n : Nat) : Option Nat :=
   if n = s.stored.tip.number then some s.stored.tip.hid
-  else (s.stored.lastN.find? (·.1 = n)).map (·.2)
+  else (s.stored.lastN.reverse.find? (·.1 = n)).map (·.2)  -- collected into a HashMap: the last entry of a number wins
 
 /-- fork detection of `commit_prove_state`: `none` = the chain is not reorganised,
 `some none` = reorganised but no remembered header is on the new chain (long fork),
@@ -448,10 +448,14 @@ def forkOf (s : St) (nps : ProveState) : Option (Option Nat) :=
           | none => none))
       else none
   else
-    some (nps.reorgLast.reverse.findSome? (fun rh =>
-      match s.stored.lastN.find? (·.1 = rh.number) with
+    let fork := nps.reorgLast.reverse.findSome? (fun rh =>
+      match s.stored.lastN.reverse.find? (·.1 = rh.number) with
       | some (_, hash) => if hash = rh.hid then some rh.number else none
-      | none => none))
+      | none => none)
+    -- the reorg headers belong to the peer's previous prove state; when the store has moved to
+    -- the new chain already (another peer), the new last headers contain the stored tip
+    if fork.isNone && (nps.lastHeaders ++ [nps.last]).any (fun h => h.hid = s.stored.tip.hid) then none
+    else some fork
 
 /-- `commit_prove_state`: `(state, committed?)`; `false` = long fork detected -/
 def commitProveState (s : St) (p : Nat) (nps : ProveState) : M (Except Nat (St × Bool)) := do
